@@ -66,6 +66,7 @@ def run(ctx: Ctx) -> None:
     save_exact(ctx, py)
     live_sources(ctx, py)
     lcd_state_cover(ctx, py, rs)
+    restore_identity(ctx, py, rs)
 
 
 # ---------------------------------------------------------------------------
@@ -759,3 +760,89 @@ def lcd_state_cover(ctx: Ctx, py: PyProgram, rs: RustProgram) -> None:
             ctx.violation("C16.3/lcd-state-cover", key_of(rs.file_for(LCD), "Hd61202State", f),
                           f"Rust Hd61202State.{f} is not " + ", not ".join(miss) + ": after a restore the chip's behaviour that depends on it differs from the uninterrupted machine", ex.where)
     ctx.instance("C16.3/lcd-state-cover", "per-chip LCD controller state fields x {saved, restored} x {Python, Rust}", n, 8)
+
+
+LCD_FIELD_DOMAIN = {"on": (False, True), "start_line": range(64), "page": range(8), "y_address": range(64)}   # HD61202 register widths: 6, 3, 6 bits
+RS_POST_RESTORE_OK = {
+    # fields apply_snapshot_info may overwrite after restoring them, with the reason (frozen from reading the code)
+    "irq_pending": "dropped only when the restored ISR is empty: nothing is left to deliver",
+    "irq_source": "cleared together with irq_pending when the restored ISR is empty",
+}
+
+
+def restore_identity(ctx: Ctx, py: PyProgram, rs: RustProgram) -> None:
+    """Restore is the identity on what was saved.  (a) Python LCD loader: each `chip.state.<f> = EXPR(chip_meta)` is evaluated for
+    every value the register can hold and must give that value back (a reduction narrower than the register loses state).
+    (b) Rust timer loader: a field restored from the snapshot is not overwritten afterwards, except for the two sanitising stores
+    listed above."""
+    CW = "pce500/display/controller_wrapper.py"
+    HD = "pce500/display/hd61202.py"
+    fn = py.func(CW, "HD61202Controller.load_snapshot")
+    mod = py.module(CW)
+    hmod = py.module(HD)
+    consts: dict = {}
+    for st in ast.walk(hmod.tree):
+        if isinstance(st, ast.ClassDef) and st.name == "HD61202":
+            for a in st.body:
+                if isinstance(a, ast.Assign) and isinstance(a.targets[0], ast.Name):
+                    try:
+                        ev0 = PyEval(py, hmod)
+                        ev0.env = dict(consts)
+                        v = ev0.eval(a.value)
+                        if isinstance(v, int):
+                            consts[a.targets[0].id] = v
+                    except Exception:  # noqa: BLE001
+                        pass
+    from ..pyfacts import Term, NotConst
+    defs = py_defs(fn)
+    n = 0
+    for a in ast.walk(fn):
+        if not (isinstance(a, ast.Assign) and len(a.targets) == 1 and isinstance(a.targets[0], ast.Attribute) and isinstance(a.targets[0].value, ast.Attribute) and a.targets[0].value.attr == "state"):
+            continue
+        fld = a.targets[0].attr
+        if fld not in LCD_FIELD_DOMAIN:
+            continue
+        # the per-chip metadata mapping is whatever `.get("<fld>")` is called on in the expression
+        metas = {unparse(c.func.value) for c in ast.walk(a.value) if isinstance(c, ast.Call) and isinstance(c.func, ast.Attribute) and c.func.attr == "get" and c.args and isinstance(c.args[0], ast.Constant) and c.args[0].value == fld}
+        ctx.need(len(metas) == 1, f"load_snapshot: the saved value of {fld} is not read with .get({fld!r})")
+        meta_name = next(iter(metas))
+        bad = None
+        for v in LCD_FIELD_DOMAIN[fld]:
+            n += 1
+            ev = PyEval(py, mod, budget=[5000])
+            ev.env = {meta_name: {fld: v}, "HD61202": Term("HD61202", (), dict(consts)), "pages": consts.get("LCD_PAGES"), "width": consts.get("LCD_WIDTH_PIXELS")}
+            # locals the expression uses, evaluated from their definitions
+            for nm in {x.id for x in ast.walk(a.value) if isinstance(x, ast.Name)} - set(ev.env):
+                for dv in defs.get(nm, []):
+                    if isinstance(dv, ast.AST):
+                        try:
+                            ev.env[nm] = ev.eval(dv)
+                        except NotConst:
+                            pass
+            try:
+                got = ev.eval(a.value)
+            except NotConst as e:
+                raise AnalysisError(f"load_snapshot: restore expression of {fld} left the evaluable fragment: {e}")
+            if got != v and bad is None:
+                bad = (v, got)
+        if bad is not None:
+            ctx.violation("C16.6/restore-exact", key_of(CW, "HD61202Controller.load_snapshot", f"{fld} not restored as saved"),
+                          f"load_snapshot restores chip.state.{fld} as `{unparse(a.value)[:80]}`: a saved value of {bad[0]} comes back as {bad[1]} although the register holds {len(LCD_FIELD_DOMAIN[fld])} values - the restored display differs from the one that was saved", f"{CW}:{a.lineno}")
+    ctx.need(n >= 100, f"load_snapshot: only {n} restore evaluations (state field stores not recognised)")
+    # (b)
+    ld = rs.fn(TIMER_RS, "TimerContext::apply_snapshot_info")
+    params = set(p for p in ld.params() if p != "self")
+    ld_defs = rs_defs(ld.body)
+    restored: dict[str, dict] = {}
+    for a in walk(ld.body):
+        if a.get("k") == "assign" and a["l"].get("k") == "field" and expr_text(a["l"]["e"]) == "self":
+            roots = {re.split(r"[.\[(]", l_.lstrip("&*<"))[0].rstrip(">") for l_ in rs_leaves(a["r"], ld_defs)}
+            from_snap = bool(roots & params)
+            nm = a["l"]["name"]
+            n += 1
+            if from_snap:
+                restored.setdefault(nm, a)
+            elif nm in restored and nm not in RS_POST_RESTORE_OK:
+                ctx.violation("C16.6/restore-exact", key_of(ld.file, ld.qual, f"{nm} overwritten after being restored"),
+                              f"apply_snapshot_info restores self.{nm} from the snapshot and then overwrites it with `{expr_text(a['r'])}` under a condition of its own: a snapshot taken in that state (e.g. inside a handler, written by the Python saver with an empty frame stack) resumes differently", f"{ld.file}:{a['ln']}")
+    ctx.instance("C16.6/restore-identity", "LCD state restore expressions evaluated over each register's domain; Rust timer fields not overwritten after restore", n, 150)
